@@ -184,7 +184,9 @@ def rand_mpo(rng, qd, L, Dmax=4, kind='complex', layout='unsorted', boundary=Non
         shape = (d, d, len(qD[i]), len(qD[i + 1]))
         A = entries(rng, shape, kind)
         mask = np.add.outer(np.add.outer(np.add.outer(qd, -qd), qD[i]), -qD[i + 1])
-        op.A[i] = np.where(mask == 0, A, 0).astype(A.dtype) / np.sqrt(d * shape[2])
+        op.A[i] = np.where(mask == 0, A, 0).astype(A.dtype)
+        if kind != 'int':
+            op.A[i] = (op.A[i] / np.sqrt(d * shape[2])).astype(A.dtype)
     return op
 
 
